@@ -144,6 +144,15 @@ fn opath_resolve<Fd: AsFd, P: AsRef<Path>>(
     let root = root.as_fd();
     let root_mnt_id = utils::fetch_mnt_id(root, "")?;
 
+    // RESOLVE_BENEATH does not permit absolute paths, so match openat2.
+    if path.as_ref().is_absolute() {
+        Err(ErrorImpl::OsError {
+            operation: "emulated RESOLVE_BENEATH".into(),
+            source: IOError::from_raw_os_error(libc::EXDEV),
+        })
+        .wrap("cannot resolve absolute paths with restricted procfs resolver")?
+    }
+
     // We only need to keep track of our current dirfd, since we are applying
     // the components one-by-one.
     let mut current = root
